@@ -3,6 +3,9 @@
 import sys, ast, time, os
 sys.path.insert(0, os.path.dirname(os.path.dirname(os.path.abspath(__file__))))
 from mirsym import harness
+from props import replay as _rp
+_e = _rp.build()
+if _e: print('replay build error', _e[-500:])
 mirs = harness.mir_paths(("acts",))
 harness._worker_init(mirs, None)
 args = eval(sys.argv[3])
